@@ -38,8 +38,17 @@ class ExprComparator : public mp::ExprVisitor<ExprComparator, bool> {
  public:
   explicit ExprComparator(Expr e) : expr_(e) {}
 
+  // Equal values; a NaN constant equals a NaN with the same bit pattern
+  // (otherwise an expression containing NaN would not be equal to itself).
+  static bool SameValue(double a, double b) {
+    return a == b || (a != a && std::memcmp(&a, &b, sizeof(a)) == 0);
+  }
+  static bool SameValue(bool a, bool b) { return a == b; }
+
   template <typename T>
-  bool VisitNumericConstant(T c) { return Cast<T>(expr_).value() == c.value(); }
+  bool VisitNumericConstant(T c) {
+    return SameValue(Cast<T>(expr_).value(), c.value());
+  }
 
   bool VisitVariable(Variable v) {
     return Cast<Variable>(expr_).index() == v.index();
@@ -90,6 +99,7 @@ class ExprComparator : public mp::ExprVisitor<ExprComparator, bool> {
   bool VisitImplication(ImplicationExpr e) { return VisitIf(e); }
   bool VisitIteratedLogical(IteratedLogicalExpr e) { return VisitVarArg(e); }
   bool VisitAllDiff(PairwiseExpr e) { return VisitVarArg(e); }
+  bool VisitNotAllDiff(PairwiseExpr e) { return VisitVarArg(e); }
 };
 
 bool ExprComparator::VisitPLTerm(PLTerm e) {
@@ -98,10 +108,11 @@ bool ExprComparator::VisitPLTerm(PLTerm e) {
   if (num_breakpoints != e.num_breakpoints())
     return false;
   for (int i = 0; i < num_breakpoints; ++i) {
-    if (pl.slope(i) != e.slope(i) || pl.breakpoint(i) != e.breakpoint(i))
+    if (!SameValue(pl.slope(i), e.slope(i)) ||
+        !SameValue(pl.breakpoint(i), e.breakpoint(i)))
       return false;
   }
-  return pl.slope(num_breakpoints) == e.slope(num_breakpoints) &&
+  return SameValue(pl.slope(num_breakpoints), e.slope(num_breakpoints)) &&
          Equal(pl.arg(), e.arg());
 }
 
@@ -237,6 +248,7 @@ class ExprHasher : public mp::ExprVisitor<ExprHasher, size_t> {
   size_t VisitImplication(ImplicationExpr e) { return VisitIf(e); }
   size_t VisitIteratedLogical(IteratedLogicalExpr e) { return VisitVarArg(e); }
   size_t VisitAllDiff(PairwiseExpr e) { return VisitVarArg(e); }
+  size_t VisitNotAllDiff(PairwiseExpr e) { return VisitVarArg(e); }
 
   size_t VisitStringLiteral(StringLiteral s) {
     size_t hash = Hash(s);
